@@ -69,7 +69,9 @@ static void gen_with(uint64_t seed, const std::string &prop, Plan &plan, const G
     p["counters"] = (prop == "C17") ? 1 : r.chance(0.15);
     p["retry_policy"] = (int64_t)r.below(3);   // byte-stream retry after EAGAIN: 0 same bytes, 1 fresh bytes, 2 fresh+longer
     // traffic volume bounded by the smallest buffer so that a run stays within its step budget
-    size_t vol = p["tcp_buf"] < 16 ? 600 : p["tcp_buf"] < 512 ? 6000 : p["tcp_buf"] < 8192 ? 60000 : 400000;
+    size_t vol = p["tcp_buf"] < 16 ? 600 : p["tcp_buf"] < 512 ? 6000 : p["tcp_buf"] <= 16384 ? 60000 : 400000;
+    // many tiny segments per write (policies 2 and 4) under TLS records: every record costs tens of deliveries
+    if (tls_bearing(tp) && (p["seg_policy"] == 2 || p["seg_policy"] == 4)) vol = std::min<size_t>(vol, p["tcp_buf"] <= 16384 ? 20000 : 100000);
     if (tp == "ux" || tp == "uxf" || tp == "utls") vol = 400000;
     for (int c = 0; c < nconn; c++) {
         p[strf("c%d_nb", c)] = r.chance(0.7);
@@ -667,7 +669,11 @@ static void setup(const Plan &plan) {
             if (!c) {
                 if (errno == EAGAIN || errno == EINTR) continue;
                 G->note("accept failed: %s", strerror(errno));
-                if (pl->P("variant")) accepted++;   // an injected fault may end the connection before it is accepted
+                // an injected fault may end the connection before it is accepted; so may a client that has sent what it had and
+                // closed before the (TLS) establishment on this side was complete: the connection is used up either way
+                bool client_gone = false;
+                for (auto &x : xsocks()) if (!x->is_server && !x->parent && (x->closed || x->dying)) client_gone = true;
+                if (pl->P("variant") || client_gone) { accepted++; G->count("probe.accept_failed_after_client_left"); }
                 continue;
             }
             if (CX->relay) {
